@@ -88,6 +88,36 @@ type C08Case struct {
 	// original function instead of to Redefine ("options given at
 	// construction apply otherwise", C16).
 	FiltersAsDefaults bool `json:"filtersAsDefaults,omitempty"`
+	// DenyNames: the input filter additionally rejects NAMED values with one
+	// of these names (a filter is an arbitrary predicate over the whole value,
+	// not a function of its type).
+	DenyNames []string `json:"denyNames,omitempty"`
+}
+
+// permitsIn: does the input filter of the case admit a value under label l?
+func (x *C08Case) permitsIn(name string, t int) bool {
+	if !permits(x.InFilter, t) {
+		return false
+	}
+	for _, d := range x.DenyNames {
+		if name != "" && name == d {
+			return false
+		}
+	}
+	return true
+}
+
+// inputFilter builds the FilterInput predicate of the case.
+func (x *C08Case) inputFilter() argmapper.FilterFunc {
+	f := x.filter(x.InFilter)
+	if len(x.DenyNames) == 0 {
+		return f
+	}
+	deny := map[string]bool{}
+	for _, d := range x.DenyNames {
+		deny[d] = true
+	}
+	return argmapper.FilterAnd(f, func(v argmapper.Value) bool { return !deny[v.Name] })
 }
 
 func typeFilter(ts []int) argmapper.FilterFunc {
@@ -126,9 +156,151 @@ func inSet(set []int, t int) bool {
 	return false
 }
 
+// ---------------------------------------------------------------------------
+// nil-able inputs: a typed nil pointer / slice / map / func / chan is an
+// ordinary value (only the untyped nil is "no value"). A redefined function
+// given such values for its declared inputs behaves like the original
+// function given the same values.
+
+type C08NilCase struct {
+	Kinds []int  `json:"kinds"` // index into nilKinds per parameter
+	Nil   []bool `json:"nil"`   // whether the value given is the typed nil
+	Named []bool `json:"named"` // named parameter (field name Pi) or type-only
+	Ptr   bool   `json:"ptr,omitempty"`
+}
+
+type nilKind struct {
+	typ    reflect.Type
+	nonNil func() reflect.Value
+}
+
+var nilKinds = []nilKind{
+	{reflect.TypeOf(&engine.T3{}), func() reflect.Value { return reflect.ValueOf(&engine.T3{K: 7}) }},
+	{reflect.TypeOf([]int(nil)), func() reflect.Value { return reflect.ValueOf([]int{1}) }},
+	{reflect.TypeOf(map[string]int(nil)), func() reflect.Value { return reflect.ValueOf(map[string]int{"a": 1}) }},
+	{reflect.TypeOf((func() int)(nil)), func() reflect.Value { return reflect.ValueOf(func() int { return 1 }) }},
+	{reflect.TypeOf((chan int)(nil)), func() reflect.Value { return reflect.ValueOf(make(chan int)) }},
+	{reflect.TypeOf(fList(nil)), func() reflect.Value { return reflect.ValueOf(fList{"x"}) }},
+}
+
+func evalC08Nil(c *engine.Case) engine.Verdict {
+	var v engine.Verdict
+	var x C08NilCase
+	if err := c.GetX(&x); err != nil {
+		v.Failf("bad case: %v", err)
+		return v
+	}
+	v.Class("nil-able-inputs")
+	sf := []reflect.StructField{{Name: "Struct", Type: reflect.TypeOf(argmapper.Struct{}), Anonymous: true}}
+	var args []argmapper.Arg
+	anyNil := false
+	for i, k := range x.Kinds {
+		nk := nilKinds[k%len(nilKinds)]
+		fld := reflect.StructField{Name: fmt.Sprintf("P%d", i), Type: nk.typ}
+		if !x.Named[i] {
+			fld.Tag = `argmapper:",typeOnly"`
+		}
+		sf = append(sf, fld)
+		val := nk.nonNil()
+		if x.Nil[i] {
+			val = reflect.Zero(nk.typ)
+			anyNil = true
+		}
+		if x.Named[i] {
+			args = append(args, argmapper.Named(fmt.Sprintf("p%d", i), val.Interface()))
+		} else {
+			args = append(args, argmapper.Typed(val.Interface()))
+		}
+	}
+	args = append(args, engine.Quiet())
+	st := reflect.StructOf(sf)
+	inT := st
+	if x.Ptr {
+		inT = reflect.PtrTo(st)
+	}
+	var seen []bool
+	runs := 0
+	fn := reflect.MakeFunc(reflect.FuncOf([]reflect.Type{inT}, []reflect.Type{reflect.TypeOf(0)}, false), func(a []reflect.Value) []reflect.Value {
+		runs++
+		sv := a[0]
+		if sv.Kind() == reflect.Ptr {
+			sv = sv.Elem()
+		}
+		seen = nil
+		for i := range x.Kinds {
+			seen = append(seen, sv.Field(i+1).IsNil())
+		}
+		return []reflect.Value{reflect.ValueOf(runs)}
+	})
+	f, err := argmapper.NewFunc(fn.Interface())
+	if err != nil {
+		v.Failf("NewFunc: %v", err)
+		return v
+	}
+	match := func(what string) bool {
+		for i := range x.Nil {
+			if i >= len(seen) || seen[i] != x.Nil[i] {
+				v.Failf("%s: parameter %d nil=%v, the value given is nil=%v", what, i, seen, x.Nil)
+				return false
+			}
+		}
+		return true
+	}
+	var o engine.Outcome
+	var res argmapper.Result
+	engine.Protect(&o, func() { res = f.Call(args...) })
+	if o.Panic != "" || res.Err() != nil {
+		// the ORIGINAL function refuses these values: nothing to compare
+		v.Class("original-call-failed")
+		return v
+	}
+	if !match("original function") {
+		return v
+	}
+	var rf *argmapper.Func
+	engine.Protect(&o, func() { rf, err = f.Redefine(engine.Quiet()) })
+	if o.Panic != "" {
+		v.Failf("Redefine panicked: %s", o.Panic)
+		return v
+	}
+	if err != nil {
+		v.Failf("Redefine of a function with plain parameters failed: %v", err)
+		return v
+	}
+	seen = nil
+	engine.Protect(&o, func() { res = rf.Call(args...) })
+	if o.Panic != "" {
+		v.Failf("redefined function panicked: %s", o.Panic)
+		return v
+	}
+	if res.Err() != nil {
+		v.Failf("the redefined function, given a value for each declared input (typed nils are values), failed: %.200s", res.Err())
+		return v
+	}
+	match("redefined function")
+	v.NonTrivial = anyNil
+	return v
+}
+
+func genC08Nil(g engine.G) *engine.Case {
+	x := C08NilCase{Ptr: g.Bool()}
+	perm := rapidPerm(g, []int{0, 1, 2, 3, 4, 5})
+	for _, k := range perm[:g.Int(1, 3)] {
+		x.Kinds = append(x.Kinds, k)
+		x.Nil = append(x.Nil, g.Pct(60))
+		x.Named = append(x.Named, g.Bool())
+	}
+	c := &engine.Case{Note: "nilin"}
+	c.SetX(&x)
+	return c
+}
+
 func evalC08(c *engine.Case) engine.Verdict {
 	if c.Note == "filter" {
 		return evalC08Filter(c)
+	}
+	if c.Note == "nilin" {
+		return evalC08Nil(c)
 	}
 	var v engine.Verdict
 	var x C08Case
@@ -150,7 +322,7 @@ func evalC08(c *engine.Case) engine.Verdict {
 	rejectedParam := false
 	if x.HasIn {
 		for _, p := range sc.Target.In {
-			if !permits(x.InFilter, p.Type) {
+			if !x.permitsIn(p.Name, p.Type) {
 				allParamsPermitted = false
 				rejectedParam = true
 			}
@@ -161,6 +333,9 @@ func evalC08(c *engine.Case) engine.Verdict {
 	}
 	if x.HasIn {
 		v.Class("has-input-filter")
+	}
+	if len(x.DenyNames) > 0 {
+		v.Class("input-filter-looks-at-names")
 	}
 	if x.HasOut {
 		v.Class("has-output-filter")
@@ -183,7 +358,7 @@ func evalC08(c *engine.Case) engine.Verdict {
 		w := engine.NewWorld()
 		var filters []argmapper.Arg
 		if x.HasIn {
-			filters = append(filters, argmapper.FilterInput(x.filter(x.InFilter)))
+			filters = append(filters, argmapper.FilterInput(x.inputFilter()))
 		}
 		if x.HasOut {
 			filters = append(filters, argmapper.FilterOutput(x.filter(x.OutFilter)))
@@ -275,7 +450,7 @@ func evalC08(c *engine.Case) engine.Verdict {
 		// (a) every input passes the filter, (b) none was already supplied
 		for _, iv := range rf.Input().Values() {
 			ti := engine.TypeIdx(iv.Type)
-			if x.HasIn && !permits(x.InFilter, ti) {
+			if x.HasIn && !x.permitsIn(iv.Name, ti) {
 				v.Failf("redefined function demands %s, which the input filter %v rejects", iv.String(), x.InFilter)
 			}
 			if iv.Subtype != "" {
@@ -426,6 +601,9 @@ func evalC08(c *engine.Case) engine.Verdict {
 }
 
 func genC08(g engine.G) *engine.Case {
+	if g.Pct(4) {
+		return genC08Nil(g)
+	}
 	if g.Pct(10) {
 		var x C08FilterCase
 		for i, n := 0, g.Int(0, 3); i < n; i++ {
@@ -552,6 +730,32 @@ func genC08(g engine.G) *engine.Case {
 		}
 		if x.HasIn && g.Pct(75) {
 			x.InFilter = uniqInts(append(x.InFilter, it))
+		}
+	}
+	if x.HasIn && g.Pct(30) {
+		// the filter looks at names as well: one of the names in play is
+		// not acceptable as an input
+		var names []string
+		seenN := map[string]bool{}
+		add := func(n string) {
+			if n != "" && !seenN[n] {
+				seenN[n] = true
+				names = append(names, n)
+			}
+		}
+		for _, in := range b.Sc.Inputs {
+			add(in.L.Name)
+		}
+		for _, p := range b.Sc.Target.In {
+			add(p.Name)
+		}
+		for i := range b.Sc.Convs {
+			for _, l := range b.Sc.Convs[i].In {
+				add(l.Name)
+			}
+		}
+		if len(names) > 0 {
+			x.DenyNames = []string{engine.Pick(g, names)}
 		}
 	}
 	x.FiltersAsDefaults = g.Pct(20)
